@@ -4,6 +4,7 @@ use vstd::prelude::*;
 use std::sync::Arc;
 //@@ INCLUDE _common/error_macros.rs
 verus! {
+//@@ INCLUDE _common/std_specs_u8.rs
 global size_of usize == 8;
 
 //@@ PDFERROR
@@ -180,6 +181,12 @@ impl<'a> Lexer<'a> {
     /// proved in units/lexer: Lexer::get_pos/get_pos_is_pos
     #[verifier::external_body]
     pub fn get_pos(&self) -> (r: usize) ensures r == self.pos { unimplemented!() }
+    /// proved in units/lexer: Lexer::get_remaining_slice/remaining_is_tail
+    #[verifier::external_body]
+    pub fn get_remaining_slice(&self) -> (r: &'a [u8])
+        requires self.wf()
+        ensures r@ == self.buf@.subrange(self.pos as int, self.buf@.len() as int)
+    { unimplemented!() }
     /// proved in units/lexer: Lexer::set_pos/set_pos_wf, set_pos_clamped
     #[verifier::external_body]
     pub fn set_pos(&mut self, wanted_pos: usize) -> (r: Substr<'a>)
@@ -275,6 +282,21 @@ pub open spec fn ascii_bytes(s: Seq<char>) -> Seq<u8> { Seq::new(s.len(), |i: in
 fn str_as_bytes(s: &'static str) -> (r: &'static [u8])
     ensures all_ascii(s@) ==> r@ == ascii_bytes(s@)
 { s.as_ref() }
+// `s.iter().take_while(f).count()` for a byte predicate `f` (R7; generic in the closure): the length of the longest
+// prefix of `s` whose bytes all satisfy the predicate the closure computes
+pub open spec fn leading(s: Seq<u8>, p: spec_fn(u8) -> bool) -> nat
+    decreases s.len()
+{
+    if s.len() == 0 || !p(s[0]) { 0 } else { 1 + leading(s.skip(1), p) }
+}
+pub open spec fn computes_u8<F: Fn(&&u8) -> bool>(f: F, p: spec_fn(u8) -> bool) -> bool {
+    forall|b: &&u8, k: bool| #[trigger] f.ensures((b,), k) ==> k == p(**b)
+}
+#[verifier::external_body]
+fn iter_take_while_count<F: Fn(&&u8) -> bool>(s: &[u8], f: F) -> (r: usize)
+    requires forall|b: &&u8| f.requires((b,))
+    ensures r <= s@.len(), forall|p: spec_fn(u8) -> bool| #[trigger] computes_u8(f, p) ==> r == leading(s@, p)
+{ s.iter().take_while(f).count() }
 // items.into_iter().map(|p| expand_abbr(p, alt)).collect()
 #[verifier::external_body]
 fn map_expand(items: Vec<Primitive>, alt: &[(&'static str, &'static str)]) -> (r: Vec<Primitive>)
